@@ -120,3 +120,20 @@ func VerifC01_Siblings() {
 	_ = srv.VerifStep(ctx)
 	verifrt.Reachable("siblings.request-handled")
 }
+
+// virtual-image prefixes that are not followed by a separator: "/***DVD***../x" is an ordinary path
+// below the root, not an image of "../x"
+func VerifC01_BarePrefix() {
+	srv, _ := verifConfinedServer("/r", "/r")
+	prefix := [2]string{"/***DVD***", "/***PS3***"}[verifrt.Choice("prefix", 2)]
+	n := 1 + verifrt.Choice("taillen", verifrt.Bound("C01.baretail", 5, 6))
+	tb := make([]byte, n)
+	for i := range tb {
+		tb[i] = [4]byte{'.', '/', 'r', '2'}[verifrt.Choice("tailbyte", 4)]
+	}
+	op := [3]uint16{0x1224, 0x1230, 0x122a}[verifrt.Choice("opcode", 3)]
+	conn := &verifstub.Conn{In: verifPathCmd(op, prefix+string(tb))}
+	ctx := server.VerifNewContext[State](conn)
+	_ = srv.VerifStep(ctx)
+	verifrt.Reachable("bareprefix.request-handled")
+}
